@@ -1,5 +1,5 @@
 \* simulation (thorough): random histories of 6 calls on one array (all calls, all lambdas, eleven tile settings)
-SPECIFICATION Spec
+SPECIFICATION SimSpec
 CONSTANTS
   Mode = "array"
   Ops <- OpsAllArray
@@ -19,4 +19,4 @@ CONSTANTS
   MaxAbs = 1000
   NB = 4
   MaxHist = 7
-CONSTRAINT Emit
+CHECK_DEADLOCK FALSE
